@@ -23,6 +23,10 @@ CHECKS = {
          "Histories of 12-40 top-level evaluations in one runtime through all 15 entry points with 18 fault kinds (errors, every limit, step budget exhausted / context cancelled at an enumerated step index, host panics in five positions, errors in handlers, in-package then failure in a nested load); after every return the stack, pending conditions, evaluator nesting, entry depth, current package and raw evaluation context (hook accessors) are asserted, and a probe program must equal a twin runtime that replays a prefix of the step's effects consistent with the completion probes.",
          "Effects are atomic statements wrapped in a completion probe; the twin is driven fault-free through LoadString; unexported state is read through build-tag accessors in lisp/verif_on.go.",
          "DESIGN.md 4/C05"),
+ "C06": ("exploration", "reference-model runtime monitor over generated handler nestings + host-side observation (probe builtins that panic on demand and capture the condition being handled)",
+         "Trees (depth <= 6) of handler-bind (1-4 bindings, any order, duplicates, `condition`, `internal-panic`), ignore-errors, progn, calls; raise sites error / host-raised error / type error / lisp-forged internal-panic / host panic / rethrow, in bodies, handler expressions, handler bodies and helpers called from handlers; value, condition, error data, IsInternalPanic marker and the ordered effect trace are compared with the reference interpreter, and the pointer-identity pattern between the errors handlers saw (verif:capture) and the error finally returned must match the model's (rethrow re-raises the very error).",
+         "Error data is restricted to self-evaluating values; messages of evaluator-raised errors are opaque; handler-bind without body forms is not generated (unspecified).",
+         "DESIGN.md 4/C06"),
  "C09": ("exploration", "structural-snapshot invariant monitor + twin execution (shared Program vs fresh parse) + Go race detector over concurrent private runtimes + the repository's checked build (-tags elpscheck) as second sanitizer",
          "26 in-place/capacity-sensitive mutator forms x 5 literals x 4 routing shapes (function returning a literal, literal in a loop body, macro arguments and &rest lists, cdr/slice views held in a global) plus generated programs; each Program is parsed once, snapshotted node by node (pointer, type, scalar fields, quoting, seal, source, len/cap, child pointers) and fingerprinted, then loaded 2-5 times in one runtime against a re-parsing twin, in fresh differently-configured runtimes, and concurrently by 2/8/32 goroutines under GOMAXPROCS 2/16 in the -race build; results must equal the fresh-parse reference, snapshot and fingerprint must be unchanged, a bystander runtime's packages must not change, no race report; a sequential sub-list is repeated under -tags elpscheck.",
          "The race detector only sees accesses the workload performs; same-value writes are invisible to the snapshot.",
